@@ -254,6 +254,36 @@ fn do_tt(t: &[&str], tt: &mut TranspositionTable) -> String {
     out.trim_end().to_string()
 }
 
+// go <side> <args...>: run the real parse_go with the search-entry intercept; answer "depth max_time" or NOSEARCH / PANIC
+fn do_go(t: &[&str], tt: &mut TranspositionTable) -> String {
+    let side = t[0];
+    let args = format!(" {}", t[1..].join(" "));
+    let mut game = Game::new_from_start_pos();
+    if side == "0" { game.active_player = Color::Black; }
+    HS.with(|h| { let mut h = h.borrow_mut(); h.intercept = true; h.entry = None; });
+    let io = IoWrapper::verif_detached();
+    let mut rep = RepetitionTable::new();
+    let r = std::panic::catch_unwind(std::panic::AssertUnwindSafe(|| {
+        parse_go(args, &mut game, &io, tt, &mut rep);
+    }));
+    let e = HS.with(|h| { let mut h = h.borrow_mut(); h.intercept = false; h.entry.take() });
+    match (r, e) {
+        (Err(_), _) => "PANIC".to_string(),
+        (Ok(_), None) => "NOSEARCH".to_string(),
+        (Ok(_), Some((d, mt))) => format!("{} {}", d, mt),
+    }
+}
+
+// att <sq> <occ>: the seven public attack getters
+fn do_att(t: &[&str]) -> String {
+    let sq: u8 = t[0].parse().unwrap();
+    let occ = Bitboard::from_u64(hx(t[1]));
+    format!("{:x} {:x} {:x} {:x} {:x} {:x} {:x}",
+        get_rook_attack_table(sq, occ).to_u64(), get_bishop_attack_table(sq, occ).to_u64(), get_queen_attack_table(sq, occ).to_u64(),
+        get_knight_attack_table(sq).to_u64(), get_king_attack_table(sq).to_u64(),
+        get_pawn_attack_table(sq, Color::White).to_u64(), get_pawn_attack_table(sq, Color::Black).to_u64())
+}
+
 fn do_batch() {
     let stdin = std::io::stdin();
     let stdout = std::io::stdout();
@@ -266,6 +296,8 @@ fn do_batch() {
         if toks.is_empty() { continue; }
         let ans = match toks[0] {
             "tt" => do_tt(&toks[1..], &mut tt),
+            "go" => do_go(&toks[1..], &mut tt),
+            "att" => do_att(&toks[1..]),
             _ => format!("BADREQ {}", toks[0]),
         };
         writeln!(out, "{}", ans).unwrap();
